@@ -289,6 +289,10 @@ class Evaluator:
                 x = self.bool_of(self.ev(a, old))
             finally:
                 self.assume = saved
+            if op == "&&" and x is not True and x is not False:
+                from .terms import conjuncts as _cj2
+                if any(self.st.truth(c) is False for c in _cj2(x)):
+                    x = False
             if op == "&&" and x is False:
                 return False
             if op == "||" and x is True:
